@@ -115,6 +115,15 @@ def run(ctx: Ctx) -> int:
     cases = []
     for pi, (job, variant) in enumerate(ec.job_schedule(ctx, 24 if ctx.thorough else 8)):
         cases.append((job, variant, gen_random(ctx, job, variant, ctx.rng.randint(6, 14))))
+    # boundary words: pending action, entries that play nothing, roll back onto each of them, then the reading command
+    for (job, variant) in ec.job_schedule(ctx, 16 if ctx.thorough else 6):
+        for lines in simenv.boundary_plans(ctx.rng, job, variant, 1):
+            k = next(i for i, l in enumerate(lines) if l.startswith(("USE", "CAST")))
+            tail_at = next(i for i, l in enumerate(lines) if i > k and l.startswith(("RESOLVE", "KEYDOWNSTOP")))
+            target = ctx.rng.randint(k + 1, tail_at)          # index of the log to keep (1-based: log 0 is init)
+            steps = [("exec", l) for l in lines[:tail_at]] + [("exec", "ELAPSE 500"), ("rollback", target)] \
+                + [("exec", l) for l in lines[target:]]
+            cases.append((job, variant, steps))
     # exhaustive small-depth words on one job (console entry and a key-down skill in the alphabet)
     job = ctx.rng.choice(["bishop", "archmagetc", "mechanic", "windbreaker"])
     kd = simenv.keydown_names(job, 1)
